@@ -14,13 +14,15 @@ What is modelled (file:function → here):
   * grain_pid.go runTurn/dispatchOne (`wStep`): user message → OnReceive if `isActive`, else the
     message is failed with ErrDead (handleGrainContext, fix 6dc1e0c); PoisonPill → `onPoisonPill := true`, `!isActive` → skip, else deactivate
     INSIDE the turn (handlePoisonPill); passivation pill → `!isActive ∨ onPoisonPill` → skip, else
-    deactivate inside the turn (handlePassivationPill; its "recently active" re-registration branch
-    is not modelled: the pill is taken as expired).
+    deactivate inside the turn when the idle deadline has passed (`expired`), otherwise the pill only
+    re-registers the grain (handlePassivationPill).
   * grain_pid.go deactivate (`deaStep`): OnDeactivate; delete from the grain map; deferred
     `activated := false`, `onPoisonPill := false`.
   * grain_pid.go passivationTry, run by the passivation manager goroutine (`mCheck`,`mDea`):
     `!isActive ∨ onPoisonPill` → give up; a reentrancy-capable grain gets a passivation pill through
-    its mailbox; any other grain is deactivated DIRECTLY on the manager's goroutine.
+    its mailbox; any other grain is deactivated on the manager's goroutine only while that goroutine owns
+    the grain's dispatch turn (CAS Idle -> Processing, re-test, deactivate, releaseTurn), otherwise the
+    pill route is taken as well.
 
 The dispatch turn is abstract as in Model/C06 (goroutine 0 is "the worker"; C01/C02 assumed).
 Not modelled: the response queue / paused state of StashNonReentrant, timers, OnActivate or
@@ -60,6 +62,7 @@ inductive GT where
   | sEnsure (pill : Bool)
   | sRecv (pill : Bool)
   | mCheck
+  | mTake                      -- passivationTry: about to try Idle -> Processing on the grain's dispatch state
   | mDea (pc : DPC)
   deriving DecidableEq, Repr, Inhabited
 
@@ -74,6 +77,9 @@ structure Cfg where
   deleted : Bool
   /-- the grain carries a reentrancy state -/
   reent : Bool
+  /-- when a passivation pill is handled the idle deadline (latest activity + deactivateAfter) has passed;
+      otherwise handlePassivationPill only re-registers the grain with the passivation manager -/
+  expired : Bool
   sched : Sched
   box : List GMsg
   budget : Nat
@@ -109,7 +115,7 @@ def wStep (c : Cfg) : Cfg :=
       if c.active then { c with box := rest, onPill := true, w := .dea .deaB .pill b }
       else { c with box := rest, onPill := true, w := .loop b }
     | .ppill :: rest =>
-      if !c.active || c.onPill then { c with box := rest, w := .loop b }
+      if !c.active || c.onPill || !c.expired then { c with box := rest, w := .loop b }
       else { c with box := rest, w := .dea .deaB .ppill b }
   | .rcv b => emit { c with w := .loop b } (.recvE wid)
   | .dea .deaB v b => emit { c with w := .dea .deaE v b } (.postB wid v)
@@ -137,10 +143,22 @@ def tStep (c : Cfg) (i : Nat) : Cfg :=
   | .mCheck =>
     if !c.active || c.onPill then setT c i .done
     else if c.reent then setT { c with box := c.box ++ [.ppill], sched := trySchedule c.sched } i .done
-    else setT { c with dea := some i } i (.mDea .deaB)
+    else setT c i .mTake
+  | .mTake =>
+    -- the manager goroutine deactivates directly only while it OWNS the grain's dispatch turn
+    if c.sched = .idle then
+      if !c.active || c.onPill then
+        -- re-test under the turn failed: releaseTurn
+        setT { c with sched := if c.box.isEmpty then .idle else .scheduled } i .done
+      else setT { c with sched := .processing, dea := some i } i (.mDea .deaB)
+    else
+      -- a turn is queued or in progress: the decision travels through the mailbox
+      setT { c with box := c.box ++ [.ppill], sched := trySchedule c.sched } i .done
   | .mDea .deaB => setT (emit c (.postB me .pass)) i (.mDea .deaE)
   | .mDea .deaE => setT (emit c (.postE me)) i (.mDea .fin)
-  | .mDea .fin => setT { finish c with dea := none } i .done
+  | .mDea .fin =>
+    -- releaseTurn: back to Idle, re-scheduled when input was enqueued meanwhile
+    setT { finish c with dea := none, sched := if c.box.isEmpty then .idle else .scheduled } i .done
 
 def step (c : Cfg) (a : Nat) : Cfg :=
   match a with
@@ -152,8 +170,8 @@ def run (c : Cfg) : List Nat → Cfg
   | a :: s => run (step c a) s
 
 /-- a process that is being created by pool thread 0 (`prog 0` must be `aB _`) -/
-def init (reent : Bool) (budget : Nat) (prog : Nat → GT) : Cfg :=
-  { active := false, onPill := false, inMap := false, deleted := false, reent := reent,
+def init (reent expired : Bool) (budget : Nat) (prog : Nat → GT) : Cfg :=
+  { active := false, onPill := false, inMap := false, deleted := false, reent := reent, expired := expired,
     sched := .idle, box := [], budget := budget, w := .idle, threads := prog,
     dea := none, log := [], mon := Mon.init }
 
@@ -180,26 +198,6 @@ def GW.inDeaLate : GW → Bool
 def GW.inDea : GW → Bool
   | .dea _ _ _ => true
   | _ => false
-
-/-! ### the guard of the partial theorem
-
-`okStep` restricts the scheduler so that the passivation manager starts its direct
-(manager-goroutine) deactivation only while no turn of the grain is in progress, no turn starts
-while it runs, and at most one runs at a time. -/
-def okStep (c : Cfg) (a : Nat) : Bool :=
-  match a with
-  | 0 =>
-    match c.w with
-    | .idle => c.dea.isNone
-    | _ => true
-  | k + 1 =>
-    match c.threads k with
-    | .mCheck => c.reent || (c.w == .idle && c.dea.isNone)
-    | _ => true
-
-def guarded (c : Cfg) : List Nat → Bool
-  | [] => true
-  | a :: s => okStep c a && guarded (step c a) s
 
 /-- admissible pools: thread 0 creates the process, every other thread starts at its first instruction -/
 def admissible (prog : Nat → GT) : Prop :=
